@@ -83,7 +83,7 @@ def main():
         drift = 0
         for si, st in enumerate(states):
             c, out = st["c"], st["out"]
-            if c["fn"] != "nominal" and si % stride:
+            if c["fn"] != "nominal" and ((si * 2654435761 >> 8) + chk.seed) % stride:
                 continue
             if c["fn"] == "nominal":
                 errs, info = check_nominal(c, out)
